@@ -129,6 +129,12 @@ Theorem c13_address_list_wf : forall a r : str,
 Proof. exact parse_address_list_tok. Qed.
 Print Assumptions c13_address_list_wf.
 
+(** regression (fix e2cd37d): a ">" in front of the "<" used to panic; it is now
+    taken as an address without display name *)
+Example c13_address_stray_gt :
+  parse_address_list (S_ ">a<") = Some (S_ "((NIL NIL "">a<"" NIL))").
+Proof. vm_compute. reflexivity. Qed.
+
 (** Confirmed: QuoteOrNIL does not handle CR; "Subject: a<CR>b" reaches the
     ENVELOPE quoted string. *)
 Theorem c13_refuted_bare_cr_header :
